@@ -82,7 +82,8 @@ func firstCharOfInitialism(s string, i int) bool {
 	r2, _ := utf8.DecodeLastRuneInString(s[:i])
 
 	// need the equal to for when the rune is the last char in the string (ex: EnvVarA)
-	return len(s) >= i+rl1 && i >= 1 && unicode.IsUpper(r1) && unicode.IsLower(r2)
+	// A digit ends a word just like a lower-case letter does (ex: Sha256*I*D, Base64*U*RL).
+	return len(s) >= i+rl1 && i >= 1 && unicode.IsUpper(r1) && (unicode.IsLower(r2) || unicode.IsDigit(r2))
 }
 
 // firstCharAfterInitialism, as used in DecodeGoCamelCase, attempts to
@@ -138,6 +139,23 @@ func decodeGoCamelCase(s string, isWordBoundary func(rune) bool) (DecodedIdentif
 					words = append(words, extractInitialisms(word)...)
 					return words, nil
 				}
+				// The upper-case run at the end of the string follows
+				// something that is not a lower-case letter (a digit,
+				// as in "Sha256ID"): what precedes the run is a word
+				// of its own, the run is the initialism(s).
+				runStart := i
+				for runStart > lastBoundary {
+					r, rl := utf8.DecodeLastRuneInString(s[:runStart])
+					if !unicode.IsUpper(r) {
+						break
+					}
+					runStart -= rl
+				}
+				if runStart > lastBoundary {
+					words = append(words, strings.ToLower(s[lastBoundary:runStart]))
+				}
+				words = append(words, extractInitialisms(s[runStart:])...)
+				return words, nil
 			}
 			lastBoundary = i
 		}
